@@ -34,8 +34,11 @@ func silenceKlog() {
 }
 
 func runCase(c *rig.Ctx, cs Case) verdict {
-	if cs.Mode == "ctl" {
+	switch cs.Mode {
+	case "ctl":
 		return runCtl(c, cs)
+	case "run":
+		return runLoop(c, cs)
 	}
 	return runCI(c, cs)
 }
@@ -78,6 +81,9 @@ func shrink(c *rig.Ctx, cs Case, v verdict) (Case, verdict) {
 	same := func(x Case) (verdict, bool) {
 		w := runCase(c, x)
 		return w, !w.ok && w.class == v.class
+	}
+	if cs.Mode == "run" {
+		return cs, v // wall-clock bound: replayed as found
 	}
 	if cs.Mode == "ctl" {
 		ops := rig.ShrinkList(cs.Ops, func(l []COp) bool {
@@ -213,6 +219,20 @@ func main() {
 			if v := runCase(c, env.Case); !v.ok {
 				v.what = "corpus " + filepath.Base(f) + ": " + v.what
 				record(c, env.Case, v)
+			}
+		}
+		// the real Run loop (first: later streams leave goroutines of the real controller's failed creations behind)
+		c.SetExtra("goroutines_before_run_loop_cases", runtime.NumGoroutine())
+		k := c.Budget(10, 80)
+		for i := 0; i < k && keepGoing(); i++ {
+			cs, labels := genRun(c.Rng, i%2 == 0)
+			c.Case(sig(cs), true, fmt.Sprintf("run versions=%d hold=%v", len(cs.Run.Versions), cs.Run.Hold >= 0), func() interface{} {
+				return map[string]interface{}{"mode": "run", "versions": len(cs.Run.Versions), "hold": cs.Run.Hold}
+			})
+			histBuckets(c, labels)
+			c.Trace()
+			if v := runCase(c, cs); !v.ok {
+				record(c, cs, v)
 			}
 		}
 		// ClusterInfo level
